@@ -18,7 +18,8 @@ DECIDED = ["R19 every loop of the hashed collections has a termination witness (
            "R19 (cont.) the sentinel test lies on every cycle of the loop; probe loops of the frozen table stop at every non-Valid slot",
            "R19t slot states of the hash tables are written only by insert / remove / full rehash (WHO table, shared)",
            "R19s search drivers are worklist loops (W4): one item removed per iteration, items added only by the expansion "
-           "of an element, which is reachable only while its visited bit is clear and sets it (PathSearch; SearchImpl via R14b)"]
+           "of an element, which is reachable only while its visited bit is clear and sets it (PathSearch; SearchImpl via R14b)",
+           "R19u a capacity change of a hash table runs the full rebuild (shared)"]
 UNDECIDED = ["time bounds", "termination of graph list walks on corrupted adjacency lists (C07 territory)",
              "loops outside collections::{multi_map,map} and the search drivers are classified for information only",
              "finiteness of one element's adjacency iteration (a corrupted list can be cyclic: C07 territory)"]
@@ -354,9 +355,8 @@ def run(ctx):
     for b in sorted(fa.bodies.values(), key=lambda x: (x.file, x.line)):
         if b.crate != "agdb" or not b.file.endswith(FILES):
             continue
-        comps = cfg.sccs(b)
-        # keep outermost distinct loops; nested SCCs are the same component in Tarjan terms
-        for k, comp in enumerate(sorted(comps, key=lambda c: min(c))):
+        comps = cfg.loop_nest(b)        # outer loops AND the loops nested inside them (one SCC in Tarjan terms)
+        for k, comp in enumerate(comps):
             n += 1
             name = common.norm(b.root or b.npath)
             kind, detail = classify(b, comp, fa)
@@ -410,5 +410,6 @@ def run(ctx):
     # tombstone discipline of the open-addressing tables behind every map (a table without Empty slots is also what makes the probe loops spin) (shared rule, rules/maps_common.py)
     from rules import maps_common
     maps_common.slot_state_rule(ctx)
+    maps_common.resize_rehash_rule(ctx)
     search_worklist_rule(ctx)
     return 0
